@@ -107,6 +107,14 @@ func c01ctxBundle(body string) []srcFile {
 	return []srcFile{{"e.soy", b.String()}}
 }
 
+var c01Tight = []struct {
+	e string
+	t ty
+}{
+	{"$i<-1", tBool}, {"$i>-1", tBool}, {"$j<-$i", tBool}, {"$j>-$i", tBool}, {"$i>=-7", tBool}, {"$i<=-7", tBool}, {"$i==-7", tBool}, {"$i!=-7", tBool}, {"$f<-0.5", tBool}, {"-$i<-$j", tBool},
+	{"$i>-(1)", tBool}, {"$i*-1", tInt}, {"$i+-1", tInt}, {"$i--1", tInt}, {"$i%-4", tInt}, {"1<-1 ? 2 : 3", tInt}, {"$i>-1 and $j<-1", tBool}, {"not($i<-1)", tBool}, {"($i)<(-1)", tBool},
+}
+
 func directC01ctx(g *G, rep *Report) {
 	n := g.N(700, 20000)
 	r := g.R.Fork()
@@ -146,6 +154,10 @@ func directC01ctx(g *G, rep *Report) {
 				}
 			case 1:
 				e = eg.atom(t)
+			case 2:
+				// binary operators written without spaces next to a unary minus / a parenthesis
+				te := c01Tight[r.Intn(len(c01Tight))]
+				e, t = te.e, te.t
 			default:
 				e = eg.expr(1+r.Intn(3), t)
 			}
